@@ -6,11 +6,60 @@ DEF_BASE = 7            # default of keyword argument j (position p + j) is DEF_
 MUL = 1000
 
 
-class Fn:
-    """One external function: `pos` positional uint256 args + `kw` defaulted uint256 args."""
+# mutability decorators an entry point can carry ("" = undecorated).  The EXPECTED payability of an entry point is
+# computed from this decorator text alone (`deco_payable`; re-read from the generated source text by
+# `source_decorators`), never from an attribute of the compiler under test: only "@payable" accepts value,
+# "@nonpayable", "@view", "@pure" and no decorator at all are non-payable.
+MUTS = ("payable", "nonpayable", "", "view", "pure")
+CTOR_MUTS = ("payable", "nonpayable", "")      # a constructor cannot be @view / @pure
 
-    def __init__(self, name, pos, kw, payable):
-        self.name, self.pos, self.kw, self.payable = name, pos, kw, payable
+
+def deco_payable(mut):
+    assert mut in MUTS, mut
+    return mut == "payable"
+
+
+def draw_mut(rnd, p_payable=0.4):
+    """payable with probability p_payable, else uniformly one of the four non-payable spellings"""
+    if rnd.random() < p_payable:
+        return "payable"
+    return rnd.choice(["nonpayable", "", "view", "pure"])
+
+
+class Fallback:
+    """`__default__` declared with the decorator `mut`; its truth value is its payability (from the decorator text),
+    so it can stand wherever the harness used False (non-payable) / True (payable)."""
+
+    def __init__(self, mut):
+        assert mut in MUTS, mut
+        self.mut = mut
+
+    def __bool__(self):
+        return deco_payable(self.mut)
+
+    def __repr__(self):
+        return f"Fallback(@{self.mut or '<undecorated>'})"
+
+
+def as_fallback(fb):
+    """None | False | True (older callers, recorded replays) | Fallback -> None | Fallback"""
+    if fb is None or isinstance(fb, Fallback):
+        return fb
+    return Fallback("payable" if fb else "")
+
+
+class Fn:
+    """One external function: `pos` positional uint256 args + `kw` defaulted uint256 args, decorator `mut`."""
+
+    def __init__(self, name, pos, kw, mut):
+        if isinstance(mut, bool):
+            mut = "payable" if mut else ""
+        assert mut in MUTS, mut
+        self.name, self.pos, self.kw, self.mut = name, pos, kw, mut
+
+    @property
+    def payable(self):
+        return deco_payable(self.mut)
 
     def sigs(self):
         return [f"{self.name}({','.join(['uint256'] * (self.pos + j))})" for j in range(self.kw + 1)]
@@ -55,8 +104,8 @@ def build_functions(rnd, n, pools):
     from vyper.utils import method_id_int
     fns, used_names, used_ids = [], set(), set()
 
-    def try_add(name, pos, kw, payable):
-        f = Fn(name, pos, kw, payable)
+    def try_add(name, pos, kw, mut):
+        f = Fn(name, pos, kw, mut)
         ids = [method_id_int(s) for s in f.sigs()]
         if name in used_names or len(set(ids)) != len(ids) or used_ids & set(ids):
             return False
@@ -89,37 +138,101 @@ def build_functions(rnd, n, pools):
             pos = nargs - kw
         if pos + kw > 3:
             kw = 3 - pos
-        try_add(name, pos, kw, rnd.random() < 0.4)
+        try_add(name, pos, kw, draw_mut(rnd))
     return fns
 
 
-def source(fns, fallback):
-    """fallback: None | False (nonpayable __default__) | True (payable __default__)"""
+VIEW_DEFAULT_OUT = 96        # a @view / @pure __default__ cannot log: it RETURNS its observations (3 words)
+PURE_DEFAULT_TAG = 424242
+
+
+def source(fns, fallback, ctor=None):
+    """fallback: None | Fallback (any of the five decorator spellings; False / True accepted for older callers);
+    ctor: None | one of CTOR_MUTS (an `__init__` with that decorator)"""
+    fallback = as_fallback(fallback)
     # __default__ observes dispatcher-related values (calldata length vs 4, the selector word, msg.value,
     # msg.sender) and logs them: they must not be disturbed by whatever the dispatcher left behind
     out = ["event D:", "    x: uint256", "    y: uint256", "    v: uint256", "    s: address", ""]
+    if ctor is not None:
+        assert ctor in CTOR_MUTS, ctor
+        out.append("@deploy")
+        if ctor:
+            out.append("@" + ctor)
+        out += ["def __init__():", "    pass", ""]
     for k, f in enumerate(fns):
         args = [f"a{i}: uint256" for i in range(f.pos)] + \
                [f"a{f.pos + j}: uint256 = {DEF_BASE + f.pos + j}" for j in range(f.kw)]
         combo = " + ".join([f"a{i} * {MUL ** i}" for i in range(f.pos + f.kw)]) or "0"
         out.append("@external")
-        if f.payable:
-            out.append("@payable")
+        if f.mut:
+            out.append("@" + f.mut)
         out.append(f"def {f.name}({', '.join(args)}) -> uint256[2]:")
         out.append(f"    return [{k}, {combo}]")
         out.append("")
     if fallback is not None:
         out.append("@external")
-        if fallback:
-            out.append("@payable")
-        out.append("def __default__():")
-        out.append("    x: uint256 = 0")
-        out.append("    y: uint256 = 0")
-        out.append("    if len(msg.data) >= 4:")
-        out.append("        x = 1")
-        out.append("        y = convert(convert(slice(msg.data, 0, 4), bytes4), uint256)")
-        out.append(f"    log D(x=x, y=y, v={'msg.value' if fallback else '0'}, s=msg.sender)")
+        if fallback.mut:
+            out.append("@" + fallback.mut)
+        if fallback.mut == "pure":
+            out.append("def __default__() -> uint256[3]:")
+            out.append(f"    return [{PURE_DEFAULT_TAG}, 0, 0]")
+        elif fallback.mut == "view":
+            out.append("def __default__() -> uint256[3]:")
+            out.append("    x: uint256 = 0")
+            out.append("    y: uint256 = 0")
+            out.append("    if len(msg.data) >= 4:")
+            out.append("        x = 1")
+            out.append("        y = convert(convert(slice(msg.data, 0, 4), bytes4), uint256)")
+            out.append("    return [x, y, convert(msg.sender, uint256)]")
+        else:
+            out.append("def __default__():")
+            out.append("    x: uint256 = 0")
+            out.append("    y: uint256 = 0")
+            out.append("    if len(msg.data) >= 4:")
+            out.append("        x = 1")
+            out.append("        y = convert(convert(slice(msg.data, 0, 4), bytes4), uint256)")
+            out.append(f"    log D(x=x, y=y, v={'msg.value' if fallback else '0'}, s=msg.sender)")
     return "\n".join(out) + "\n"
+
+
+def source_decorators(src):
+    """{function name: tuple of decorator words}, read back from the TEXT of a generated contract (the harness' own
+    source of truth for payability: an entry point accepts value iff "payable" is among its decorators)."""
+    out, pending = {}, []
+    for line in src.splitlines():
+        if line.startswith("@"):
+            pending.append(line[1:].strip())
+        elif line.startswith("def "):
+            name = line[4:line.index("(")]
+            assert name not in out, name
+            out[name] = tuple(pending)
+            pending = []
+        elif line and not line.startswith((" ", "#")):
+            pending = []
+    return out
+
+
+def check_source_payability(src, es, fb, ctor=None):
+    """The payability the harness expects of every entry point (es / fb / ctor) must be what the decorator text of
+    the generated source says; returns a description of the first disagreement or None."""
+    decos = source_decorators(src)
+    allowed = {"external", "internal", "deploy", "payable", "nonpayable", "view", "pure"}
+    for name, ds in decos.items():
+        if not set(ds) <= allowed or len(set(ds) & {"payable", "nonpayable", "view", "pure"}) > 1:
+            return f"{name}: unexpected decorators {ds}"
+    for e in es:
+        name = e[4].split("(")[0]
+        if name not in decos or ("payable" in decos[name]) != bool(e[1]):
+            return f"{e[4]}: harness expects payable={bool(e[1])}, source decorators {decos.get(name)}"
+    if (fb is None) != ("__default__" not in decos):
+        return f"__default__: harness expects {fb}, source decorators {decos.get('__default__')}"
+    if fb is not None and ("payable" in decos["__default__"]) != bool(fb):
+        return f"__default__: harness expects payable={bool(fb)}, source decorators {decos['__default__']}"
+    if (ctor is None) != ("__init__" not in decos):
+        return f"__init__: harness expects {ctor!r}, source decorators {decos.get('__init__')}"
+    if ctor is not None and ("payable" in decos["__init__"]) != deco_payable(ctor):
+        return f"__init__: harness expects payable={deco_payable(ctor)}, source decorators {decos['__init__']}"
+    return None
 
 
 def entries(fns):
@@ -207,6 +320,19 @@ def expected_default_log(data: bytes, value: int, payable_default: bool, sender:
     return x.to_bytes(32, "big") + y.to_bytes(32, "big") + v.to_bytes(32, "big") + bytes(12) + bytes.fromhex(sender[2:])
 
 
+def expected_default(data: bytes, value: int, fb, sender: str):
+    """What a call that reaches `__default__` must show: the log of a state-mutating fallback, or the three words
+    a @view / @pure fallback returns (it cannot log).  Returns ('default', bytes)."""
+    fb = as_fallback(fb)
+    if fb.mut == "pure":
+        return ("default", PURE_DEFAULT_TAG.to_bytes(32, "big") + bytes(64))
+    if fb.mut == "view":
+        x = 1 if len(data) >= 4 else 0
+        y = int.from_bytes(data[:4], "big") if x else 0
+        return ("default", x.to_bytes(32, "big") + y.to_bytes(32, "big") + bytes(12) + bytes.fromhex(sender[2:]))
+    return ("default", expected_default_log(data, value, bool(fb), sender))
+
+
 def observe(res, fns):
     """Classify a pyrevm result: ('revert',) | ('default',) | ('enter', out) | ('other', ...)"""
     if not res.ok:
@@ -216,4 +342,6 @@ def observe(res, fns):
         return ("default", log_tuple(res.logs[0])[2])
     if len(res.logs) == 0 and len(res.out) == 64:
         return ("enter", res.out)
+    if len(res.logs) == 0 and len(res.out) == VIEW_DEFAULT_OUT:     # a @view / @pure __default__ returns 3 words
+        return ("default", res.out)
     return ("other", res.out.hex(), len(res.logs))
